@@ -322,6 +322,8 @@ func (s *wstmt) wgsl(ind int) string {
 			return fmt.Sprintf("%s%s %s = %s;\n", p, s.k, s.name, s.e.wgsl())
 		}
 		return fmt.Sprintf("%s%s %s: %s = %s;\n", p, s.k, s.name, s.ty, s.e.wgsl())
+	case "raw": // verbatim statement text (C11 rule-breaking edits)
+		return p + s.name + "\n"
 	case "var", "assign", "opassign", "incr", "decr":
 		return p + s.inline() + ";\n"
 	case "if":
